@@ -21,6 +21,8 @@ void exerciseHeterList()
 	(void)list.empty(); (void)(bool)list;
 	list.template forEach<void ()>([](const typename CL::Handle &, const std::function<void ()> &) {});
 	list.template forEach<void (int, const std::string &)>([](const std::function<void (int, const std::string &)> &) {});
+	list.template forEach<void (int, const std::string &)>([](const typename CL::Handle &, const std::function<void (int, const std::string &)> &) {});
+	(void)list.template forEachIf<void (Payload)>([](const typename CL::Handle &, const std::function<void (Payload)> &) { return true; });
 	(void)list.template forEachIf<void ()>([](const typename CL::Handle &, const std::function<void ()> &) { return true; });
 	(void)list.template forEachIf<void (Payload)>([](const std::function<void (Payload)> &) { return true; });
 	list(); list(1, "a"); list(Payload()); Payload p; list(p); list(std::string("s"));
